@@ -15,9 +15,10 @@ for j in jobs:
     if not j.ok:
         print("NOT-RUN", j.name, getattr(j, "why", ""), [l for l in j.wlines if not l.startswith(("ret=", "len="))][:3])
         continue
-    for sfx in ("on", "off"):
+    for sfx in ("on", "off", "mixfd", "mixdf"):
         v = verdicts.get("%s/%s" % (j.name, sfx), "<no verdict>")
         if not v.startswith("ok"):
             print(j.name, sfx, v[:400])
             bad[j.fmt.codec] += 1
 print(stats, "verdicts=%d bad=%s wall=%.1fs" % (len(verdicts), dict(bad), wall))
+print("state twins differing:", [(j.name, j.gmix_bad) for j in jobs if getattr(j, "gmix_bad", None)][:6])
